@@ -130,6 +130,24 @@ func genMemberValue(rng *rand.Rand, kind string) any {
 	return nil
 }
 
+func zeroOf(kind string) any {
+	switch kind {
+	case "string":
+		return ""
+	case "int", "int64":
+		return 0
+	case "double", "float":
+		return 0.0
+	case "bool":
+		return false
+	case "arr":
+		return []string{}
+	case "map":
+		return map[string]int{}
+	}
+	return nil
+}
+
 func canon(v any) string {
 	b, _ := json.Marshal(v)
 	var x any
@@ -187,7 +205,13 @@ func runC07(r *Report, rng *rand.Rand, thorough bool) {
 	// packages of 10 schemas, for nullable-type off and on
 	var pkgs []LabPkg
 	per := 10
-	for _, nt := range []bool{false, true} {
+	type variant struct {
+		tag       string
+		nt, roptr bool
+	}
+	variants := []variant{{"ntfalse", false, false}, {"nttrue", true, false}, {"roptr", false, true}}
+	for _, vr := range variants {
+		nt := vr.nt
 		for i := 0; i < len(schemas); i += per {
 			comps := map[string]any{"Leaf": map[string]any{"type": "object", "required": []string{"x", "y"}, "properties": map[string]any{"x": map[string]any{"type": "string"}, "y": map[string]any{"type": "integer"}}}}
 			for _, s := range schemas[i:min(i+per, len(schemas))] {
@@ -197,7 +221,8 @@ func runC07(r *Report, rng *rand.Rand, thorough bool) {
 			cfg := codegen.Configuration{Generate: codegen.GenerateOptions{Models: true}}
 			cfg.OutputOptions.SkipPrune = true
 			cfg.OutputOptions.NullableType = nt
-			pkgs = append(pkgs, LabPkg{Name: fmt.Sprintf("c07_p%d_nt%v", i/per, nt), Spec: spec, Cfg: cfg})
+			cfg.Compatibility.DisableRequiredReadOnlyAsPointer = vr.roptr
+			pkgs = append(pkgs, LabPkg{Name: fmt.Sprintf("c07_p%d_%s", i/per, vr.tag), Spec: spec, Cfg: cfg})
 		}
 	}
 	lab, err := BuildLab(labRoot, "c07", pkgs)
@@ -210,11 +235,13 @@ func runC07(r *Report, rng *rand.Rand, thorough bool) {
 		s    mSchema
 		inst map[string]any
 		nt   bool
+		ro   bool
 	}
 	metas := map[string]meta{}
-	for _, nt := range []bool{false, true} {
+	for _, vr := range variants {
+		nt := vr.nt
 		for si, s := range schemas {
-			pkg := fmt.Sprintf("c07_p%d_nt%v", si/per, nt)
+			pkg := fmt.Sprintf("c07_p%d_%s", si/per, vr.tag)
 			if !lab.Status[pkg].OK {
 				if si%per == 0 {
 					st := lab.Status[pkg]
@@ -228,6 +255,8 @@ func runC07(r *Report, rng *rand.Rand, thorough bool) {
 					switch {
 					case f.Required && f.Nullable && rng.Intn(3) == 0:
 						inst[f.Name] = nil
+					case f.Required && k == 0 && zeroOf(f.Kind) != nil:
+						inst[f.Name] = zeroOf(f.Kind) // the first instance of every schema holds zero values in its required members
 					case f.Required:
 						inst[f.Name] = genMemberValue(rng, f.Kind)
 					case rng.Intn(3) == 0:
@@ -260,7 +289,7 @@ func runC07(r *Report, rng *rand.Rand, thorough bool) {
 				b, _ := json.Marshal(inst)
 				id := fmt.Sprintf("%s/%s/%d", pkg, s.Name, k)
 				scenarios = append(scenarios, map[string]any{"id": id, "pkg": pkg, "opts": map[string]any{"short_circuit": -1, "strict_short_circuit": -1}, "round": map[string]any{"type": s.Name, "json": json.RawMessage(b)}})
-				metas[id] = meta{s, inst, nt}
+				metas[id] = meta{s, inst, nt, vr.roptr}
 			}
 		}
 	}
@@ -274,7 +303,7 @@ func runC07(r *Report, rng *rand.Rand, thorough bool) {
 		id := sc["id"].(string)
 		m := metas[id]
 		res := results[id]
-		replay := map[string]any{"schema": m.s, "instance": m.inst, "nullable_type": m.nt}
+		replay := map[string]any{"schema": m.s, "instance": m.inst, "nullable_type": m.nt, "disable_required_readonly_as_pointer": m.ro}
 		if res == nil {
 			continue
 		}
@@ -339,7 +368,7 @@ func runC07(r *Report, rng *rand.Rand, thorough bool) {
 			continue
 		}
 		// ---- model tie (nullable-type off; readOnly / writeOnly members change the pointer rule: C08)
-		plain := !m.nt
+		plain := !m.nt && !m.ro
 		for _, f := range m.s.Fields {
 			if f.RO || f.WO {
 				plain = false
@@ -360,5 +389,5 @@ func runC07(r *Report, rng *rand.Rand, thorough bool) {
 	}
 	ccases.WriteTo(r)
 	// ---- number without format is float32 (documented): a value needing more precision is narrowed
-	r.Rule = "object schemas from a grammar (1-5 members: required/optional x nullable x {string, int, int64, double, bool, date, array, map, referenced object}, some readOnly/writeOnly; additionalProperties absent / true / string / integer / array of integers / object with optional members / map of strings, with 0-3 additional members) x nullable-type off/on, generated and compiled; valid instances from a schema-directed generator (explicit nulls, absent optionals, empty arrays/maps, 64-bit extremes, float64 edge values, escaped and non-ASCII strings, extra members of the additional type) unmarshalled into the generated type and marshalled again; semantic JSON equality modulo the documented exception (oracle) and the model's re-encoded object (Coq); non-trivial = instance with at least two members"
+	r.Rule = "object schemas from a grammar (1-5 members: required/optional x nullable x {string, int, int64, double, bool, date, array, map, referenced object}, some readOnly/writeOnly; additionalProperties absent / true / string / integer / array of integers / object with optional members / map of strings, with 0-3 additional members) x {default, nullable-type, disable-required-readonly-as-pointer}, generated and compiled; valid instances from a schema-directed generator (one instance per schema with zero values in every required member, explicit nulls, absent optionals, empty arrays/maps, 64-bit extremes, float64 edge values, escaped and non-ASCII strings, extra members of the additional type) unmarshalled into the generated type and marshalled again; semantic JSON equality modulo the documented exception (oracle) and the model's re-encoded object (Coq); non-trivial = instance with at least two members"
 }
